@@ -17,8 +17,8 @@ from sim.prng import stream
 
 MATH = 1 << workload.TRAITS.index("math")
 TIERS = {
-    "quick": {"programs": 170, "comps": 40, "worlds": 6, "extra_masks": 2, "decl_frac": 0.3, "refine": 160, "weak": 160, "solve": 160, "recover": 100, "cli": 48, "two_worlds": False},
-    "thorough": {"programs": 10**6, "comps": 400, "worlds": 24, "extra_masks": 12, "decl_frac": 1.0, "refine": 2500, "weak": 2500, "solve": 2500, "recover": 1500, "cli": 400, "two_worlds": True},
+    "quick": {"programs": 10**6, "comps": 60, "worlds": 8, "extra_masks": 2, "decl_frac": 0.3, "refine": 300, "weak": 300, "solve": 300, "recover": 200, "cli": 48, "two_worlds": False, "wide_masks": 3},
+    "thorough": {"programs": 10**6, "comps": 400, "worlds": 24, "extra_masks": 12, "decl_frac": 1.0, "refine": 2500, "weak": 2500, "solve": 2500, "recover": 1500, "cli": 400, "two_worlds": True, "wide_masks": 14},
 }
 PRISTINE = {"H": 0, "A": 0, "D": 5_000_000, "Dcount": 0, "R": 0, "G": "on", "Lg": "none"}
 
@@ -70,6 +70,13 @@ def build(seed: int, cfg: dict):
             for mode in ("explicit", "empty", "absent"):
                 inp, out = workload.decl(mode, b["text"], rng)
                 add(b["text"], inp, out, rng.choice([workload.DEFAULT, workload.ALL]), b["id"], "sweep-decl:" + mode)
+    # widened variants (every atom argument doubled): default, all and seeded further trait sets
+    for b in workload.load_wide():
+        ms = [workload.DEFAULT, workload.ALL][: cfg["wide_masks"]]
+        while len(ms) < cfg["wide_masks"]:
+            ms.append(rng.choice([1 << rng.randrange(9), workload.ALL ^ (1 << rng.randrange(9)), rng.randrange(512)]))
+        for m in ms:
+            add(b["text"], "auto", "auto", m, b["id"], "sweep-wide")
     multi = [b for b in safe if b["text"].count(".") >= 2]
     n = 0
     guard = 0
@@ -168,6 +175,7 @@ def run(args) -> int:
                 "program": pid,
                 "spec": spec,
                 "argv": climodel.render(spec, crng),
+                "stall": crng.choice([None, None, None, {"first": 1.5}, {"mid": [2, 1.5]}, {"out": 1.5}]),
                 "chunks": [crng.choice([1, 7, 100]) for _ in range(20)],
                 "drain_seed": crng.randrange(2**31),
                 "drain_sizes": [1, 64, 4096],
@@ -235,6 +243,9 @@ def run(args) -> int:
             if job.get("module") == "sim.cliworker":
                 for rn, ev in zip(job["runs"], [e for e in r["events"] if e.get("op") == "run"]):
                     st["cli"]["runs"] += 1
+                    if ev["verdict"] == "violation:does-not-terminate":
+                        bad.append({"kind": "cli-does-not-terminate", "job": job, "run": rn, "ev": ev})
+                        continue
                     if ev["verdict"].startswith("harness"):
                         if ev["verdict"] == "harness-timeout":
                             bad.append({"kind": "cli-does-not-terminate", "job": job, "run": rn, "ev": ev})
@@ -256,6 +267,8 @@ def run(args) -> int:
                 oc = ev.get("outcome", "")
                 if oc.startswith("HARNESS"):
                     raise HarnessError(f"worker op failed: {oc}")
+                if oc.startswith("SKIPPED"):
+                    continue
                 tid = ev["t"]
                 tgt = targets[tid]
                 st["calls"] += 1
@@ -477,7 +490,7 @@ def replay(path: str) -> int:
 
             ev = _one(pool, doc.get("seed", 0), doc["world"], {doc["run"]["program"]: doc["stdin"]}, doc["run"])
             print(json.dumps({k: (ev or {}).get(k) for k in ("exit", "verdict", "detail")}))
-            hit = ev is not None and (ev["verdict"] == "harness-timeout" or (ev.get("ref_ok") and ev["exit"] != 0))
+            hit = ev is not None and (ev["verdict"] in ("harness-timeout", "violation:does-not-terminate") or (ev.get("ref_ok") and ev["exit"] != 0))
         else:
             job = {"seed": doc.get("seed", 0), "world": doc["world"], "targets": doc["targets"], "ops": doc["ops"], "use_faults": True, "wall_s": 3000}
             r = pool.run([job])[0]
